@@ -65,7 +65,7 @@ NoLeaf == [phase |-> "none"]
 \* environment at each use (model checking), [any |-> FALSE, set |-> paths] fixes it
 AnyMissing == [any |-> TRUE, set |-> {}]
 Start(disk, plan, exdev, owner, miss) ==
-  [disk |-> disk, miss |-> miss, cache |-> CacheOf(disk), plan |-> plan, i |-> 1, pc |-> "start",
+  [disk |-> disk, miss |-> miss, tree0 |-> disk, target |-> Nil, elog |-> <<>>, cache |-> CacheOf(disk), plan |-> plan, i |-> 1, pc |-> "start",
    w |-> NoWalk, lf |-> NoLeaf, stk |-> <<>>, ret |-> "none", held |-> Nil,
    results |-> <<>>, problems |-> {}, missing |-> FALSE, ops |-> 0,
    budget |-> Budget, cancelled |-> FALSE, exdev |-> exdev, owner |-> owner,
@@ -76,7 +76,7 @@ Init == \E disk \in DiskTrees, target \in TargetTrees :
           /\ plan # <<>>
           /\ \E exdev \in (IF PlanCreates(plan, "file") THEN BOOLEAN ELSE {FALSE}),
                 owner \in (IF PlanCreates(plan, "link") THEN BOOLEAN ELSE {FALSE}) :
-               s = Start(disk, plan, exdev, owner, AnyMissing)
+               s = [Start(disk, plan, exdev, owner, AnyMissing) EXCEPT !.target = target]
 
 \* ------------------------------------------------------------ primitives
 Problem(t, path) == [t EXCEPT !.problems = @ \cup {path}]
@@ -183,7 +183,11 @@ OnDisk(t) == At(t.disk, t.lf.path)
 FileAsExpected(t, path, exp) ==
   LET n == At(t.disk, path) IN
   /\ n.k = "file" /\ path \in DOMAIN t.cache
-  /\ t.cache[path].v = n.v            \* mode, modification time, size, file id
+  /\ n.v.md = t.cache[path].v.md      \* metadata.Mode == cached.Mode
+  /\ n.v.ms = t.cache[path].v.ms      \* metadata.ModificationTime.Equal(cached.ModificationTime):
+  /\ n.v.mn = t.cache[path].v.mn      \*   seconds and nanoseconds
+  /\ n.v.sz = t.cache[path].v.sz      \* metadata.Size == cached.Size
+  /\ n.v.id = t.cache[path].v.id      \* metadata.FileID == cached.FileID
   /\ t.cache[path].d = exp.d          \* cached digest = expected digest
 StatLeaf ==
   /\ s.pc = "leaf" /\ s.lf.phase = "stat"
@@ -213,7 +217,7 @@ ChmodLeaf ==
   /\ s.pc = "leaf" /\ s.lf.phase = "chmod"
   /\ LET n == OnDisk(s) IN
      s' \in Prim(s, "setpermissions",
-                 IF n.k = "file" THEN LeafReturn(DiskSet(s, s.lf.path, DF(n.d, s.plan[s.i].new.x, 2)), FALSE)
+                 IF n.k = "file" THEN LeafReturn(DiskSet(s, s.lf.path, DF(n.d, s.plan[s.i].new.x, [n.v EXCEPT !.md = 10])), FALSE)
                  ELSE LeafReturn(s, TRUE),
                  LeafReturn(s, TRUE))
 
@@ -221,7 +225,7 @@ ChmodLeaf ==
 \* provider does not guarantee existence): an environment choice per file.
 Replace(t) == t.lf.op = "swap"
 MissingReturn(t) == LeafReturn([t EXCEPT !.missing = TRUE], TRUE)
-Wanted(t) == DF(t.lf.exp.d, t.lf.exp.x, 2)
+Wanted(t) == DF(t.lf.exp.d, t.lf.exp.x, VNew)
 MayExist(t) == t.miss.any \/ t.lf.path \notin t.miss.set
 MayBeMissing(t) == t.miss.any \/ t.lf.path \in t.miss.set
 ChmodStaged ==      \* provider.Provide + filesystem.SetPermissionsByPath(stagedPath, ...)
@@ -412,19 +416,16 @@ Cancel == /\ s.pc \notin {"done"} /\ s.budget > 0 /\ ~s.cancelled /\ s.edited = 
           /\ s' = [s EXCEPT !.cancelled = TRUE, !.budget = @ - 1, !.fkind = "cancel"]
 
 \* a modification between the scan and the transition
-EditKinds(n) ==
-  CASE n.k = "file" -> {DF("d9", n.x, 1), DF(n.d, n.x, 1), DF(n.d, ~n.x, 1), L("t9"), D(<<>>), Nil}   \* content, touch/replace, chmod, type changes, deletion
-    [] n.k = "link" -> {L("t9"), DF("d9", FALSE, 1), Nil}
-    [] n.k = "dir" -> {DF("d9", FALSE, 1)} \cup {D([m \in DOMAIN n.c \cup {"z"} |-> IF m = "z" THEN DF("d9", FALSE, 1) ELSE n.c[m]])}
-    [] OTHER -> {}
+EditOps(n) == CASE n.k = "file" -> FileOps [] n.k = "link" -> LinkOps [] n.k = "dir" -> DirOps [] OTHER -> {}
+Logged(t, op, p) == [t EXCEPT !.edited = @ \cup {p}, !.elog = Append(@, [op |-> op, path |-> p]), !.budget = 0]
 ExternalEdit ==
   /\ s.pc = "start" /\ Cardinality(s.edited) < MaxEdits
   /\ \E p \in Nodes(s.disk) \ {<<>>} :
        /\ \A q \in s.edited : ~Comparable(p, q)
-       /\ \E n \in EditKinds(At(s.disk, p)) :
-            LET newchild == n.k = "dir" /\ At(s.disk, p).k = "dir"
-                ep == IF newchild THEN Append(p, "z") ELSE p IN
-            s' = [s EXCEPT !.disk = SetAt(s.disk, p, n), !.edited = @ \cup {ep}, !.budget = 0]
+       /\ \/ \E op \in EditOps(At(s.disk, p)) :
+               s' = Logged([s EXCEPT !.disk = SetAt(s.disk, p, EditEffect(op, At(s.disk, p)))], op, p)
+          \/ /\ At(s.disk, p).k = "dir" /\ "z" \notin DOMAIN At(s.disk, p).c        \* a new child inside a directory
+             /\ s' = Logged([s EXCEPT !.disk = SetAt(s.disk, Append(p, "z"), EditEffect("newchild", Nil))], "newchild", Append(p, "z"))
 \* something appears where the plan is going to create content
 CreateEdit ==
   /\ s.pc = "start" /\ Cardinality(s.edited) < MaxEdits
@@ -432,16 +433,16 @@ CreateEdit ==
        LET p == s.plan[j].path IN
        /\ p # <<>> /\ s.plan[j].old = Nil /\ At(s.disk, p) = Nil /\ At(s.disk, ParentOf(p)).k = "dir"
        /\ \A q \in s.edited : ~Comparable(p, q)
-       /\ \E n \in {DF("d9", FALSE, 1), L("t9"), D(<<>>)} :
-            s' = [s EXCEPT !.disk = SetAt(s.disk, p, n), !.edited = @ \cup {p}, !.budget = 0]
+       /\ \E op \in {"createfile", "createlink", "createdir"} :
+            s' = Logged([s EXCEPT !.disk = SetAt(s.disk, p, EditEffect(op, Nil))], op, p)
 \* the plan was computed from an older snapshot: disk and cache hold other content than the plan expects
 StaleEdit ==
   /\ s.pc = "start" /\ Cardinality(s.edited) < MaxEdits
   /\ \E p \in FilePaths(s.disk) :
        /\ \A q \in s.edited : ~Comparable(p, q)
-       /\ At(s.disk, p).v = 0
-       /\ s' = [s EXCEPT !.disk = SetAt(s.disk, p, DF("d8", At(s.disk, p).x, 0)),
-                         !.cache[p] = [v |-> 0, d |-> "d8"], !.edited = @ \cup {p}, !.budget = 0]
+       /\ At(s.disk, p).v = V0
+       /\ s' = Logged([s EXCEPT !.disk = SetAt(s.disk, p, DF("d8", At(s.disk, p).x, V0)),
+                                !.cache[p] = [v |-> V0, d |-> "d8"]], "stale", p)
 
 \* content inside a directory that the plan removes disappears between scan and
 \* transition.  A removal whose own loop meets no failure treats it as already
